@@ -33,6 +33,9 @@ def gen(tier, rng):
         for k in range(2 if tier == "quick" else 10):
             i += 1
             out.append((c05.http_line("sync" if i % 2 else "async", "revoke", False, status, cts[i % len(cts)], bodies[(i // 2) % len(bodies)]), "status"))
+    for status in range(100, 600):
+        i += 1
+        out.append((c05.http_line("sync" if i % 2 else "async", "revoke", False, status, cts[i % 2], b""), "status-empty-body"))
     for status in (200, 201, 204, 400, 401, 403, 404, 500, 503):
         for b in bodies:
             for ct in cts:
